@@ -46,6 +46,22 @@ CHECKS = {
    text="For 18 environments (6 start versions incl. PEP 440 and a stdin object at the u64 boundary x 3 schemas incl. one with literal components in all sections) every subset up to size 3 of a 60-90 element flag-instance alphabet (field overrides/bumps, label override/bump, index overrides/bumps in positive, negative and ~n spelling, VCS/context overrides) goes through the real clap parser and run_version_pipeline; the resulting schema+vars are compared with R-BUMP, a single pass over the 11 precedence levels; all permutations of flag order up to size 2/3; invalid targets and boundary amounts; chaining through --source stdin from every one-op state.",
    note="Trusts R-BUMP; two behaviours the statement leaves open are masked (invented label, kept number); outputs read back with zerv's RON parser.",
    technique="exhaustive subset + permutation enumeration of flag instances against a reference precedence machine, with chained (non-initial) states", ref="C05"),
+ "C04": dict(cat="model_checking",
+   text="Full product of base tag x 27 branch names (prefix-without-slash, digit segments, zero padding, '+N' segments, u32-overflowing and non-ASCII names, absent branch) x distance x dirty flag x --post x --pre-release-label x --pre-release-num x --post-mode x 4 rule sets (first-match shadowing, exact and prefix rules) through run_flow_pipeline with --output-format zerv on sources none and stdin, compared field by field with R-FLOW; every hash length 0..11 x every branch against an independent SipHash-1-3 (R-SIP); BranchRules::resolve_for_branch directly.",
+   note="Trusts R-FLOW and R-SIP (self-tested against the README value); three behaviours left open by the statement are counted, not compared; wall clock pinned.",
+   technique="exhaustive product enumeration of flow inputs against a reference law and an independent hash", ref="C04"),
+ "C03": dict(cat="model_checking",
+   text="(i) Full product of final-release tags x branches x distance x dirty x post-mode x rule sets x hash lengths x label/post flags x the 11 standard presets x both formats through run_flow_pipeline; every output is compared by independent comparators (R-SV precedence, standard PEP 440 order) with X.Y.Z and X.Y.(Z+1), exactly X.Y.Z when clean at the tag; (ii) distance chains 0..6 per (tag, branch, rule set, preset, format) must be strictly increasing where the preset prints the post counter; (iii) every dev-less pre-release output fed back as a tag with --clean must be reproduced; (iv) on real git histories the C02 engine checks the same bounds and first-parent commit steps (reported under C02's evidence until the git engine lands).",
+   note="Independent comparators; for the two presets that omit the pre-release part by explicit choice the upper bound is non-strict on the public part; wall clock pinned.",
+   technique="exhaustive product + chain enumeration of flow runs judged by independent version comparators", ref="C03"),
+ "C12": dict(cat="model_checking",
+   text="(a) ~5000 objects built directly (each string variable over 30 nasty strings incl. quotes, backslashes, control and RON-syntax look-alikes; numerics at 0/1/2^63/2^64-1; 25 custom JSON shapes; nasty text inside schema literals) under 22 presets + custom schemas: parse(emit(z))==z and byte-identical re-emission; (a2) ~290 version/flow jobs x 5 renderings: direct == piped through --source stdin (incl. epoch 0 overrides/bumps); (c) ~250 structurally generated schemas (every variable in every section, all orders/duplicates of Major/Minor/Patch, all secondary pairs, timestamp patterns, empty) on 4 entry paths: accepted iff R-SCH valid; (b) ~20k single-byte document mutants + garbage: no panic, rendered only when parseable with a valid schema and then well-formed.",
+   note="R-SCH; ts(\"%...\") and custom precedence orders outside the statement; parseability of mutants judged by zerv's RON parser (ron crate trusted).",
+   technique="exhaustive per-field domain enumeration, structural schema generation and single-byte mutation of documents, with a reference validity predicate", ref="C12"),
+ "C15": dict(cat="model_checking",
+   text="For every schema program of a bounded size x 6 variable assignments one template renders {{semver}}, {{pep440}} and all parts of semver_obj / pep440_obj; they must equal the formatter output for the same object, recompose exactly, and give the docker form. Scalar variables on every assignment (incl. keyword texts). Functions hash / hash_int / prefix x lengths 0..21 x 40 texts (multi-byte boundaries, keywords, numbers, bools) x allow_leading_zero, prefix_if, sanitize (presets and all separator/lowercase/keep_zeros combinations, max_length) against R-SIP and R-SAN; format_timestamp x 7 formats x a sweep of instants against R-CAL with the harness under TZ=PST8; a CLI/binary slice.",
+   note="Rendered templates are trimmed and none/null/nil collapse by design; R-SAN, R-SIP, R-CAL trusted.",
+   technique="exhaustive enumeration of objects x templates and function arguments against reference models", ref="C15"),
 }
 
 def main():
